@@ -251,6 +251,9 @@ class Engine(object):
                 v2[s.flag] = v
                 self._continue(v2, dict(IN), list(work))
             return
+        for name, d in self.flags.items():
+            if len(d['values']) == 1 and name not in leaf.val:
+                leaf.val[name] = d['values'][0]      # single-valued flags the path never read
         self.leaves.append(leaf)
 
     # ------------------------------------------------------------ values
